@@ -183,7 +183,8 @@ CHECKS = {
              "constituent modules' reduced instance sets are re-generated and discharged inside this check; the coverage "
              "obligation is mechanical: each of the 43 callback productions of grammar.lark, every transformer helper and every "
              "non-trivial text-emitting method of every IR class is under contract in some module. Open findings of the "
-             "constituents are inherited by reference. Thorough tier: monitored compilation of all 2181 bundled definitions in "
+             "constituents are inherited by reference. Thorough tier: the constituents' complete quick instance sets instead of the "
+             "reduced ones, and a monitored compilation of all 2181 bundled definitions in "
              "both layouts and of the 13 bundled routines - structural clauses M1-M7 on the emitted text (declaration shape, sorts by "
              "fixpoint with one sort per local, declared-before-use, linear ownership, final return, layout agreement modulo DUP, "
              "no parser object in the text), M9 (each part's attribute list against that part's text: MEM_WRITE iff STOREW, MEM_READ iff "
